@@ -800,6 +800,8 @@ def ia32_rm32_op3cl(obj, Mod, RM, REG, data):
 def ia32_rm32_op3cst(obj, Mod, RM, REG, data):
     op1, data = getModRM(obj, Mod, RM, data)
     op2 = env.getreg(REG, op1.size)
+    if data.size < 8:
+        raise InstructionError(obj)
     imm = data[0:8]
     obj.operands = [op1, op2, env.cst(imm.int(), 8)]
     obj.bytes += pack(imm)
